@@ -649,7 +649,7 @@ class PoolRun:
 
     def probe(self, k):
         """Capacity probe: ask for k gated tasks in a fresh group, run to idle, report how many began."""
-        if self.simple and self.splan["imm"]:
+        if self.simple and (self.splan["imm"] or self.splan.get("bad")):
             self.ev("skip", what="probe")
             return
         self.w.armed = []       # the probe itself must not be disturbed by operations armed earlier
